@@ -480,6 +480,49 @@ func run(dir string, seed uint64, tier string) error {
 		addCase(w, rn, t, false, 0, b64tbl(t), func() int { return call(rn, byName[rn].run, s, dl) }, "mutated")
 	}
 
+	// ---- generated: line SEQUENCES over the file letters of the installed database (compared in Coq).
+	// Byte edits of a valid database almost never produce a line whose predecessor is missing
+	// (a: without R:, M: without F:, a: right after F:, Z: first, perms after a blank line ...):
+	// every sequence of up to 3 lines over the alphabet below, after "P:p", and sampled longer ones.
+	{
+		alphabet := []string{"F:d", "R:f", "a:1:2:0600", "M:1:2:0700", "Z:Q1AQID", "", "a:1:2", "M:x:2:0700", "P:q"}
+		var seqs [][]string
+		var rec func(prefix []string, depth int)
+		rec = func(prefix []string, depth int) {
+			if len(prefix) > 0 {
+				seqs = append(seqs, append([]string{}, prefix...))
+			}
+			if depth == 0 {
+				return
+			}
+			for _, l := range alphabet {
+				rec(append(append([]string{}, prefix...), l), depth-1)
+			}
+		}
+		nlong := 150
+		if tier == "thorough" {
+			rec(nil, 4)
+			nlong = 3000
+		} else {
+			rec(nil, 3)
+		}
+		for i := 0; i < nlong; i++ {
+			var q []string
+			for k, m := 0, 4+r.Intn(4); k < m; k++ {
+				q = append(q, gal.Pick(r, alphabet))
+			}
+			seqs = append(seqs, q)
+		}
+		for i, q := range seqs {
+			t := "P:p\n" + strings.Join(q, "\n") + "\n\n"
+			if i%5 == 4 {
+				t = strings.Join(q, "\n") + "\n" // no package line in front, no closing blank line
+			}
+			s := []byte(t)
+			addCase(w, "ParseInstalled", t, false, 0, b64tbl(t), func() int { return call("ParseInstalled", byName["ParseInstalled"].run, s, dl) }, fmt.Sprintf("line-sequences-%d", min(len(q), 4)))
+		}
+	}
+
 	// ---- exploration: every reader on malformed streams (Go only) ------------
 	seeds := map[string][][]byte{
 		"ParseVersion": nil, "ResolvePackageNameVersionPin": nil,
